@@ -7,6 +7,10 @@
 #include <mh_sha256.h>
 #include <mh_sha1_murmur3_x64_128.h>
 #include <rolling_hashx.h>
+#include <sys/mman.h>
+#include <unistd.h>
+#include <openssl/sha.h>
+#pragma GCC diagnostic ignored "-Wdeprecated-declarations"
 
 enum { R_FAM, R_ISAL, R_LEGACY };
 static const char *const route_name[] = { "fam", "isal", "legacy" };
@@ -63,7 +67,7 @@ static void mh_case(const mhalg_t *a, int fi, uint64_t c, int thorough)
         uint8_t exp[32], expm[16];
         if (a->dwords == 5) ref_mh_sha1(data, len, exp); else ref_mh_sha256(data, len, exp);
         if (murmur) ref_murmur3_x64_128(data, len, seed, expm);
-        uint8_t *ctxraw = malloc(a->ctx_size + 64), *ctx = ctxraw + 0;
+        uint8_t *ctxraw = malloc(a->ctx_size + 64), *ctx = ctxraw + 8 * (c & 1);       /* the context types guarantee 8-byte alignment only */
         for (int route = 0; route < 3; route++) {
                 if (!want_route[route]) continue;
                 rng_fill(&r, ctxraw, a->ctx_size + 64);        /* junk before init */
@@ -122,6 +126,77 @@ static void mh_case(const mhalg_t *a, int fi, uint64_t c, int thorough)
         free(base); free(ctxraw);
 }
 
+/* ---- huge streams (bit length beyond 32 bits, byte length up to 2^32-1): OpenSSL's block transforms as a fast second oracle ---- */
+static void fast_mh(const uint8_t *p, uint64_t n, int words, uint8_t *out)
+{
+        SHA_CTX s1[16]; SHA256_CTX s2[16];
+        for (int s = 0; s < 16; s++) { SHA1_Init(&s1[s]); SHA256_Init(&s2[s]); }
+        uint8_t blk[64], last[2048];
+        uint64_t full = n / 1024, rem = n % 1024;
+        memset(last, 0, sizeof last); memcpy(last, p + full * 1024, rem); last[rem] = 0x80;
+        uint64_t padded = rem + 1 + 8 > 1024 ? 2048 : 1024, bits = n * 8;
+        for (int i = 0; i < 8; i++) last[padded - 1 - i] = (uint8_t) (bits >> (8 * i));
+        for (uint64_t b = 0; b < full + padded / 1024; b++) {
+                const uint8_t *src = b < full ? p + b * 1024 : last + (b - full) * 1024;
+                for (int s = 0; s < 16; s++) {
+                        for (int i = 0; i < 16; i++) memcpy(blk + 4 * i, src + 4 * (i * 16 + s), 4);
+                        if (words == 5) SHA1_Transform(&s1[s], blk); else SHA256_Transform(&s2[s], blk);
+                }
+        }
+        uint8_t outer[8 * 16 * 4];
+        for (int j = 0; j < words; j++) for (int s = 0; s < 16; s++) {
+                uint32_t v = words == 5 ? (j == 0 ? s1[s].h0 : j == 1 ? s1[s].h1 : j == 2 ? s1[s].h2 : j == 3 ? s1[s].h3 : s1[s].h4) : s2[s].h[j];
+                memcpy(outer + 4 * (j * 16 + s), &v, 4);       /* little-endian host */
+        }
+        if (words == 5) SHA1(outer, 320, out); else SHA256(outer, 512, out);
+}
+static void run_mh_huge(const mhalg_t *a, int thorough)
+{
+        const char *famsel = arg_str("--fam", "all");
+        int murmur = a == &mhalgs[2];
+        /* periodic stream: 64 MiB memfd mapped back to back */
+        const uint64_t PER = 64ull << 20; const int NC = 65;
+        int fd = memfd_create("verif-mh", 0);
+        if (fd < 0 || ftruncate(fd, (off_t) PER)) out_err("memfd failed");
+        uint8_t *st = mmap(NULL, NC * PER, PROT_NONE, MAP_PRIVATE | MAP_ANONYMOUS | MAP_NORESERVE, -1, 0);
+        if (st == MAP_FAILED) out_err("cannot reserve address space");
+        for (int i = 0; i < NC; i++) if (mmap(st + (uint64_t) i * PER, PER, i == 0 ? PROT_READ | PROT_WRITE : PROT_READ, MAP_SHARED | MAP_FIXED, fd, 0) == MAP_FAILED) out_err("mirror mmap failed");
+        rng_t r; rng_seed(&r, g_seed ^ 0x6e6e); rng_fill(&r, st, PER);
+        /* cross-validate the fast oracle with the reference on a prefix */
+        { uint8_t x[32], y[32]; fast_mh(st, 70000, a->dwords, x); if (a->dwords == 5) ref_mh_sha1(st, 70000, y); else ref_mh_sha256(st, 70000, y); if (memcmp(x, y, (size_t) 4 * a->dwords)) out_err("fast multi-hash oracle disagrees with the reference"); }
+        static const uint64_t lq_mh[] = { (1ull << 29) + 100 }, lq_mur[] = { (1ull << 31) + 53 }, lt[] = { (1ull << 29) + 100, (1ull << 31) + 53, (1ull << 32) - 77 };
+        const uint64_t *lens = thorough ? lt : murmur ? lq_mur : lq_mh; int nl = thorough ? 3 : 1;
+        for (int li = 0; li < nl; li++) {
+                uint64_t len = lens[li], seed = 0x123456789abcdef1ULL;
+                uint8_t exp[32], expm[16];
+                fast_mh(st, len, a->dwords, exp);
+                if (murmur) ref_murmur3_x64_128(st, len, seed, expm);
+                for (int fi = 0; fi < 5; fi++) {
+                        if (strcmp(famsel, "all") && strcmp(famsel, fam_names[fi])) continue;
+                        snprintf(rbuf, sizeof rbuf, "{\"engine\":\"mhroll\",\"what\":\"huge\",\"alg\":\"%s\",\"fam\":\"%s\",\"len\":%llu}", a->name, fam_names[fi], (unsigned long long) len);
+                        snprintf(cur_replay, sizeof cur_replay, "%s", rbuf);
+                        uint8_t *ctx = malloc(a->ctx_size);
+                        memset(ctx, 0x5a, a->ctx_size);
+                        LABEL("%s %s huge len=%llu", a->name, fam_names[fi], (unsigned long long) len);
+                        if (murmur) ((mh_init2_f) a->init_int)(ctx, seed); else ((mh_init_f) a->init_int)(ctx);
+                        uint64_t cuts[4] = { (1ull << 28) + 7, len / 2 + 333, len - 1000, len }, off = 0;
+                        for (int k = 0; k < 4; k++) { ((mh_upd_f) a->upd[fi])(ctx, st + off, (uint32_t) (cuts[k] - off)); off = cuts[k]; out_count("mh_update_calls", 1); }
+                        uint32_t dg[8]; uint8_t mur[16];
+                        if (murmur) ((mh_fin2_f) a->fin[fi])(ctx, dg, mur); else ((mh_fin_f) a->fin[fi])(ctx, dg);
+                        cur_label[0] = 0;
+                        out_count("mh_streams", 1); out_count("mh_huge_streams", 1);
+                        uint8_t got[32];
+                        for (int i = 0; i < a->dwords; i++) { got[4 * i] = (uint8_t) (dg[i] >> 24); got[4 * i + 1] = (uint8_t) (dg[i] >> 16); got[4 * i + 2] = (uint8_t) (dg[i] >> 8); got[4 * i + 3] = (uint8_t) dg[i]; }
+                        char key_[160];
+                        if (memcmp(got, exp, (size_t) 4 * a->dwords)) { snprintf(key_, sizeof key_, "mh-huge-digest-mismatch %s %s", a->name, fam_names[fi]); out_viol(g_prop, key_, rbuf, "stream of %llu bytes: digest differs from the multi-hash definition", (unsigned long long) len); }
+                        if (murmur && memcmp(mur, expm, 16)) { snprintf(key_, sizeof key_, "murmur-huge-mismatch %s", fam_names[fi]); out_viol(g_prop, key_, rbuf, "stream of %llu bytes: murmur3 value differs from the reference", (unsigned long long) len); }
+                        feat(mix64(0x6e6e, mix64((uint64_t) (a - mhalgs) * 8 + (uint64_t) fi, len)));
+                        free(ctx);
+                        char n[64]; snprintf(n, sizeof n, "cases_%s", fam_names[fi]); out_count(n, 1);
+                }
+        }
+}
+
 static void run_mh(const mhalg_t *a, const char *what, int thorough)
 {
         const char *famsel = arg_str("--fam", "all");
@@ -174,6 +249,7 @@ static void roll_case(int si, uint64_t c, int thorough)
                 if (!want_route[route]) continue;
                 struct isal_rh_state2 *st = malloc(sizeof *st);
                 rng_fill(&r, st, sizeof *st);
+                if (c % 4 == 1) for (size_t q = 0; q < sizeof *st / 4; q++) ((uint32_t *) st)[q] = w;  /* stale memory that happens to hold the requested window everywhere */
                 int rc = 0;
                 LABEL("rolling %s %s w=%u n=%u", scans[si].name, route_name[route], w, n);
                 if (route == R_ISAL) { rc |= isal_rolling_hash2_init(st, w); rc |= isal_rolling_hash2_reset(st, stream); }
@@ -260,6 +336,55 @@ static void roll_case(int si, uint64_t c, int thorough)
         free(stream);
 }
 
+/* one run call over more than 2^31 bytes: incremental model from the golden table, cross-checked with the from-scratch formula on a prefix */
+static void run_rolling_huge(int thorough)
+{
+        const char *famsel = arg_str("--fam", "all");
+        uint64_t N = (1ull << 31) + (1ull << 27);
+        uint8_t *buf = malloc(N + 64);
+        if (!buf) out_err("cannot allocate %llu bytes", (unsigned long long) N);
+        { uint64_t x = g_seed | 1, *q = (uint64_t *) buf; for (uint64_t i = 0; i < N / 8 + 1; i++) { x ^= x << 13; x ^= x >> 7; x ^= x << 17; q[i] = x; } }
+        for (int si = 0; si < 3; si++) {
+                if (strcmp(famsel, "all") && strcmp(famsel, scans[si].name)) continue;
+                force_vcpu(scans[si].vcpu);
+                for (int rep = 0; rep < (thorough ? 4 : 2); rep++) {
+                        unsigned w = rep == 0 ? 48 : 1 + (unsigned) ((g_seed + (uint64_t) rep * 13 + (uint64_t) si) % 48);
+                        uint32_t mask = 0xffffffffu, max_len = rep % 2 == 0 ? 0x80000005u : (uint32_t) (N - 64 - w);
+                        /* trigger = hash value found deep inside the buffer, so there is a hit at or before that position */
+                        uint64_t target = rep % 2 == 0 ? (1ull << 31) - 77 : (1ull << 31) + 4099;
+                        uint32_t trigger = (uint32_t) ref_rolling_hash(buf + target - w, w);
+                        /* model: incremental scan for the first k >= 1 with H(buf[k-w .. k)) & mask == trigger, k counted from position w */
+                        uint64_t h = ref_rolling_hash(buf, w), T2[256];
+                        for (int i = 0; i < 256; i++) T2[i] = (ref_rolling_table[i] << w) | (ref_rolling_table[i] >> (64 - w));
+                        uint32_t eoff = max_len; int ehit = 0;
+                        for (uint64_t k = 1; k <= max_len; k++) {
+                                h = ((h << 1) | (h >> 63)) ^ ref_rolling_table[buf[w + k - 1]] ^ T2[buf[k - 1]];
+                                if (k == 5000 && h != ref_rolling_hash(buf + k, w)) out_err("incremental rolling model disagrees with the from-scratch formula");
+                                if (((uint32_t) h & mask) == trigger) { eoff = (uint32_t) k; ehit = 1; break; }
+                        }
+                        snprintf(rbuf, sizeof rbuf, "{\"engine\":\"mhroll\",\"what\":\"rolling_huge\",\"scan\":\"%s\",\"w\":%u,\"max_len\":%u}", scans[si].name, w, max_len);
+                        snprintf(cur_replay, sizeof cur_replay, "%s", rbuf);
+                        struct isal_rh_state2 *st = malloc(sizeof *st);
+                        uint32_t off = 0xdeadbeef; int match = -77, rc = 0;
+                        LABEL("rolling %s huge run w=%u max_len=%u", scans[si].name, w, max_len);
+                        rc |= isal_rolling_hash2_init(st, w); rc |= isal_rolling_hash2_reset(st, buf);
+                        rc |= isal_rolling_hash2_run(st, buf + w, max_len, mask, trigger, &off, &match);
+                        cur_label[0] = 0;
+                        out_count("rolling_run_calls", 1); out_count("rolling_huge_runs", 1); if (ehit) out_count("rolling_hits", 1);
+                        feat(mix64(0x2012, mix64((uint64_t) si * 64 + w, max_len)));
+                        char key_[120];
+                        if (rc || off != eoff || match != (ehit ? ISAL_FINGERPRINT_RET_HIT : ISAL_FINGERPRINT_RET_MAX)) {
+                                snprintf(key_, sizeof key_, "rolling-huge-boundary %s", scans[si].name);
+                                out_viol(g_prop, key_, rbuf, "single run over max_len=%u (w=%u): got offset %u match %d rc %d, model says offset %u %s", max_len, w, off, match, rc, eoff, ehit ? "HIT" : "MAX");
+                        }
+                        free(st);
+                }
+                char n[64]; snprintf(n, sizeof n, "cases_%s", scans[si].name); out_count(n, 1);
+        }
+        free(buf);
+        out_count("rolling_direct_scans", 1); out_count("mask_gen_calls", 1);
+}
+
 static void run_rolling(int thorough)
 {
         const char *famsel = arg_str("--fam", "all");
@@ -295,10 +420,14 @@ int main(int argc, char **argv)
         const char *what = arg_str("--what", "mh_sha1"), *routes = arg_str("--route", "fam,isal,legacy");
         for (int i = 0; i < 3; i++) want_route[i] = strstr(routes, route_name[i]) != NULL;
         int thorough = !strcmp(arg_str("--tier", "quick"), "thorough");
-        if (!strcmp(what, "mh_sha1")) run_mh(&mhalgs[0], what, thorough);
+        if (!strcmp(what, "mh_sha1_huge")) run_mh_huge(&mhalgs[0], thorough);
+        else if (!strcmp(what, "mh_sha256_huge")) run_mh_huge(&mhalgs[1], thorough);
+        else if (!strcmp(what, "murmur_huge")) run_mh_huge(&mhalgs[2], thorough);
+        else if (!strcmp(what, "mh_sha1")) run_mh(&mhalgs[0], what, thorough);
         else if (!strcmp(what, "mh_sha256")) run_mh(&mhalgs[1], what, thorough);
         else if (!strcmp(what, "murmur")) run_mh(&mhalgs[2], what, thorough);
         else if (!strcmp(what, "rolling")) run_rolling(thorough);
+        else if (!strcmp(what, "rolling_huge")) run_rolling_huge(thorough);
         else out_err("unknown --what %s", what);
         out_sample("{\"engine\":\"mhroll\",\"what\":\"%s\",\"routes\":\"%s\",\"first_case\":%llu,\"cases\":%llu}", what, routes, (unsigned long long) g_from, (unsigned long long) g_count);
         vcpu_set("host");
